@@ -29,6 +29,11 @@ type Ob struct {
 	Status     Status `json:"status"`
 	Detail     string `json:"detail,omitempty"`
 	NonTrivial bool   `json:"-"`
+	// a requirement that a caller cannot establish: the caller, the linear form without its
+	// constant, and the constant (form + K >= 0)
+	ReqCaller string `json:"-"`
+	ReqForm   string `json:"-"`
+	ReqK      int64  `json:"-"`
 }
 
 type KnownFinding struct {
@@ -88,6 +93,10 @@ type Result struct {
 	Counters    map[string]int // functions_analysed, call_sites, ...
 	Rules       map[string]string
 	AllFuncs    map[string]bool // names (model.FnName) of every function of the loaded program
+	// RefFuncs: the reference tree's lal functions (nil = unknown); StaticCallers[f] = functions
+	// with a static call of f
+	RefFuncs      map[string]bool
+	StaticCallers map[string]map[string]bool
 	start       time.Time
 	keyCount    map[string]int
 }
@@ -123,6 +132,40 @@ func (r *Result) Trivial(rule, key, pos, detail string) {
 // Bad records an undischarged obligation (becomes known/assumed when listed in the tables).
 func (r *Result) Bad(rule, key, pos, detail string) { r.add(rule, key, pos, Violated, detail, true) }
 
+// BadReq records a requirement that the named caller cannot establish (form + k >= 0).
+func (r *Result) BadReq(rule, key, pos, detail, caller, form string, k int64) {
+	r.add(rule, key, pos, Violated, detail, true)
+	o := &r.Obs[len(r.Obs)-1]
+	o.ReqCaller, o.ReqForm, o.ReqK = caller, form, k
+}
+
+// reqMatches: a requirement that a caller cannot establish is covered by a reviewed entry when
+// an entry matched, by key, the same or a stronger requirement on the same quantity at the same
+// call site of that caller (form + k' >= 0 with k' <= k): it is the same assumption about that call, reached
+// from another access (a helper the statements were moved to, an index that is now a variable).
+func (r *Result) reqMatches(direct map[int]Reviewed, open []int) map[int]Reviewed {
+	out := map[int]Reviewed{}
+	for _, i := range open {
+		o := &r.Obs[i]
+		if o.ReqCaller == "" {
+			continue
+		}
+		for j, rv := range direct {
+			d := &r.Obs[j]
+			// only entries written for that caller: a wildcard entry ("@*", "|*") states an
+			// invariant of the callee's class that is conditional on how the callee is reached
+			if strings.HasSuffix(rv.Key, "*") {
+				continue
+			}
+			if d.ReqCaller == o.ReqCaller && d.ReqForm == o.ReqForm && d.ReqK <= o.ReqK && d.Rule == o.Rule {
+				out[i] = rv
+				break
+			}
+		}
+	}
+	return out
+}
+
 // Assume records an obligation that a rule accepts on the strength of an exception frozen in
 // the checker's own table (with its reason); it is counted as assumed, never as discharged.
 func (r *Result) Assume(rule, key, pos, detail string) { r.add(rule, key, pos, Assumed, detail, true) }
@@ -154,6 +197,7 @@ func (r *Result) Violations(t *Tables) int {
 		reviewed[k.Key] = k
 	}
 	used := map[string]bool{}
+	direct := map[int]Reviewed{}
 	var open []int
 	for i, o := range r.Obs {
 		if o.Status != Violated || known[o.Key] {
@@ -161,11 +205,19 @@ func (r *Result) Violations(t *Tables) int {
 		}
 		if rv, ok := lookupReviewed(reviewed, t.Reviewed, o.Key); ok {
 			used[rv.Key] = true
+			direct[i] = rv
 			continue
 		}
 		open = append(open, i)
 	}
-	return len(open) - len(r.budgetMatches(t, used, open))
+	byReq := r.reqMatches(direct, open)
+	var rest []int
+	for _, i := range open {
+		if _, ok := byReq[i]; !ok {
+			rest = append(rest, i)
+		}
+	}
+	return len(rest) - len(r.budgetMatches(t, used, rest))
 }
 
 // keyParts splits an obligation key "rule|fn|kind|expr[@caller]|ordinal".
@@ -206,13 +258,19 @@ func (r *Result) budgetMatches(t *Tables, used map[string]bool, open []int) map[
 				continue
 			}
 			erule, efn, ekind, eAt, eok := keyParts(e.Key)
-			if !eok || eAt != hasAt {
+			if !eok {
 				continue
 			}
 			if erule != rule && !(strings.HasPrefix(erule, "*.") && strings.HasSuffix(rule, erule[1:])) {
 				continue
 			}
-			if efn == fn || (!live[efn] && ekind == kind) {
+			// statements moved into a helper that the edit introduced: the obligation now belongs
+			// to a function the reference tree does not have, called from the entry's function
+			extracted := r.RefFuncs != nil && !r.RefFuncs[fn] && ekind == kind && r.calledFrom(fn, efn, 2)
+			if eAt != hasAt && !extracted {
+				continue
+			}
+			if efn == fn || (!live[efn] && ekind == kind) || extracted {
 				taken[e.Key] = true
 				out[i] = e
 				break
@@ -220,6 +278,23 @@ func (r *Result) budgetMatches(t *Tables, used map[string]bool, open []int) map[
 		}
 	}
 	return out
+}
+
+// calledFrom: fn is statically called from caller, directly or through at most depth-1
+// functions that are themselves new.
+func (r *Result) calledFrom(fn, caller string, depth int) bool {
+	if depth == 0 {
+		return false
+	}
+	for c := range r.StaticCallers[fn] {
+		if c == caller {
+			return true
+		}
+		if !r.RefFuncs[c] && r.calledFrom(c, caller, depth-1) {
+			return true
+		}
+	}
+	return false
 }
 
 // Finish applies the tables, prints the verdict lines, writes evidence, returns exit code.
@@ -236,6 +311,7 @@ func (r *Result) Finish(t *Tables, evidenceDir string) int {
 	}
 	usedKnown := map[string]bool{}
 	usedRv := map[string]bool{}
+	direct := map[int]Reviewed{}
 	var open []int
 	for i := range r.Obs {
 		o := &r.Obs[i]
@@ -248,12 +324,26 @@ func (r *Result) Finish(t *Tables, evidenceDir string) int {
 			usedKnown[o.Key] = true
 		} else if rv, ok := lookupReviewed(reviewed, t.Reviewed, o.Key); ok {
 			usedRv[rv.Key] = true
+			direct[i] = rv
 			o.Status = Assumed
 			o.Detail = o.Detail + " [reviewed invariant: " + rv.Assume + " — " + rv.Reason + "]"
 		} else {
 			open = append(open, i)
 		}
 	}
+	byReq := r.reqMatches(direct, open)
+	var rest []int
+	for _, i := range open {
+		rv, ok := byReq[i]
+		if !ok {
+			rest = append(rest, i)
+			continue
+		}
+		o := &r.Obs[i]
+		o.Status = Assumed
+		o.Detail = o.Detail + " [the same requirement at the same caller as reviewed entry " + rv.Key + ": " + rv.Assume + " — " + rv.Reason + "]"
+	}
+	open = rest
 	for i, rv := range r.budgetMatches(t, usedRv, open) {
 		o := &r.Obs[i]
 		usedRv[rv.Key] = true
